@@ -279,7 +279,7 @@ def run_tlc(
     deadlock: bool = False,
     extra: Sequence[str] = (),
     cwd: str | None = None,
-    heap: str = "8g",
+    heap: str = "4g",
     dfs_queue: bool = False,
 ) -> TLCResult:
     """Run TLC on spec/<module>.tla with spec/<cfg>.  Raises MachineryError on parse/tool errors."""
